@@ -4,6 +4,7 @@
    is flagged, so it is reported invalid even on the last byte of a read. *)
 From Via Require Import M_Char M_Parse M_Receive P_Parse.
 From Via Require Import P_Frag P_FragC P_Term P_TermC.
+From Via Require Import M_Imp Gen_Parse P_Imp.
 From Via Require Import M_Client P_Client.
 Local Open Scope N_scope.
 
@@ -134,3 +135,18 @@ Print Assumptions C07_chunk_fragments.
 Print Assumptions C07_receive_fragments.
 Print Assumptions C07_fragmentation_invariance.
 Print Assumptions C07_fragmentation_invariance_of_the_read_loop.
+
+(* ---- the tie to the source, as a theorem ----
+   The character-level parser functions of the model are not only compared with the code on generated inputs: the bodies
+   of the C++ functions (parse_char) are translated from clang's AST on every run (translate/parse.py -> Gen_Parse.v, a
+   term of the small imperative language of M_Imp.v), and the model function is proved to compute, for EVERY state,
+   character and limit configuration (strict and lenient CRLF), exactly what the translated body computes.  A change of
+   the source that changes what parse_char does makes this theorem fail. *)
+Theorem C07_status_line_model_is_the_source : forall L r c,
+  run_body (sl_lim L) c (sl_src L) (sl_store r) = (sl_store (fst (sl_parse_char L r c)), snd (sl_parse_char L r c)).
+Proof. exact sl_parse_char_is_the_source. Qed.
+Theorem C07_field_line_model_is_the_source : forall L f c,
+  run_body (fl_lim L) c (fl_src L) (fl_store f) = (fl_store (fst (fl_parse_char L f c)), snd (fl_parse_char L f c)).
+Proof. exact fl_parse_char_is_the_source. Qed.
+Print Assumptions C07_status_line_model_is_the_source.
+Print Assumptions C07_field_line_model_is_the_source.
